@@ -6,6 +6,12 @@ REQUIRED = ["DaeVerif.C15.Props." + n for n in (
     # full strength (events name members; any sizes, offsets, latencies, tolerance, histories)
     "index_consistent",
     "best_is_alive_and_nil_iff_nobody_alive",
+    "alive_iff_last_told_alive",
+    "group_sets_agree_with_flags",
+    "select_family_order",
+    "admitting_domain_spec",
+    "select_ok_of_selectable",
+    "tolerance_invariant_all_sample_histories",
     "getMin_respects_exclusion",
     "getMin_excluding_best_is_minimum",
     "random_returns_alive",
@@ -27,6 +33,16 @@ REQUIRED = ["DaeVerif.C15.Props." + n for n in (
 )]
 
 
+import re
+_CB = re.compile(r"^cb=\[[^\]]*\] ")
+
+
+def strip_cb(line):
+    """aliveChangeCallback sequences are C16's subject (kernel connectivity bit): compared as a
+    diagnostic only, never gating for C15."""
+    return _CB.sub("", line)
+
+
 def compare(op, im, mo):
     """True when the implementation's answer is admitted by the model's answer."""
     if im == mo:
@@ -36,8 +52,13 @@ def compare(op, im, mo):
         # implementation prints the distinct answers of its draws.
         if im.startswith("ok ") and mo.startswith("ok "):
             a, b = set(im[3:].split(",")), set(mo[3:].split(","))
+            if any(x.endswith(":*") for x in a):
+                # answer of the Select / SelectWithExclusion wrappers: no admitting domain returned
+                b = set(x.rsplit(":", 1)[0] + ":*" for x in b)
             return len(a) > 0 and a <= b
         return False
+    if strip_cb(im) == strip_cb(mo):
+        return "cb-only"
     if op.startswith("rand "):
         if im.startswith("cands=") and mo.startswith("cands="):
             a = set(x for x in im[6:].split(",") if x)
@@ -84,7 +105,7 @@ def run(ctx):
         return 2
     n_eval = 0
     distinct = set()
-    for label in ("c15", "c15dial", "c15oob"):
+    for label in ("c15", "c15dial", "c15oob", "c15wit"):
         ops, impl, model = (os.path.join(ctx.out, label + "." + e) for e in ("ops", "impl", "model"))
         if not os.path.exists(ops):
             ctx.say("HARNESS-FAILED no stream", label)
@@ -94,10 +115,17 @@ def run(ctx):
         mism = ctx.diff_streams(ops, impl, model, label)
         lo, li, lm = read_lines(ops), read_lines(impl), read_lines(model)
         real = []
+        cb_only = 0
         for ln, op, im, mo in mism:
-            if ln and compare(op, im, mo):
-                continue
+            if ln:
+                r = compare(op, im, mo)
+                if r == "cb-only":
+                    cb_only += 1
+                    continue
+                if r:
+                    continue
             real.append((ln, op, im, mo))
+        ctx.cov["streams"][label]["callback_only_differences"] = cb_only
         ctx.cov["streams"][label]["mismatches"] = len(real)
         for ln, op, im, mo in real[:6]:
             # replay context: the scenario up to the failing line
@@ -121,16 +149,18 @@ def run(ctx):
                                    {"stream": label, "line": i + 1, "op": op, "impl": im})
                 if op.startswith(("sel ", "told ", "sample ", "choose ")):
                     distinct.add(im)
-    # regression guard for fix addc261 (former finding c15-hour-sentinel): first scenario of stream
-    # c15oob = group {n0 [add_latency: 1h], n1}, n1 dead for tcp4, n0 probed OK -> n0 must be selected.
-    oo, oi = read_lines(os.path.join(ctx.out, "c15oob.ops")), read_lines(os.path.join(ctx.out, "c15oob.impl"))
-    wit = list(zip(oo[:6], oi[:6]))
-    ok_now = (len(wit) == 6 and wit[5][0].startswith("sel t 4") and wit[5][1].startswith("ok 0:"))
-    ctx.cov["hour_offset_witness"] = {"selected": ok_now, "witness": wit}
+    # regression guard for fix addc261 (former finding c15-hour-sentinel): stream c15wit, first scenario =
+    # group {n0 [add_latency: 1h], n1}, n1 dead for tcp4, n0 probed OK -> n0 must be selected.
+    oo, oi = read_lines(os.path.join(ctx.out, "c15wit.ops")), read_lines(os.path.join(ctx.out, "c15wit.impl"))
+    sels = [(o, i) for o, i in zip(oo, oi) if o.startswith("sel ")]
+    ok_now = len(sels) >= 1 and sels[0][1].startswith("ok 0:")
+    ctx.cov["hour_offset_witness"] = {"selected": ok_now, "witness": list(zip(oo[:6], oi[:6]))}
     if not ok_now:
         ctx.report("a node whose sorting latency reaches time.Hour is alive but not selectable (fix addc261 missing?): "
-                   "group {n0 [add_latency: 1h], n1}, n1 dead for tcp4, n0 probed OK -> " + (wit[5][1] if len(wit) == 6 else "?"),
-                   {"stream": "c15oob", "ops": oo[:6], "impl": oi[:6]}, key="c15-hour-sentinel")
+                   "group {n0 [add_latency: 1h], n1}, n1 dead for tcp4, n0 probed OK -> " + (sels[0][1] if sels else "?"),
+                   {"stream": "c15wit", "ops": oo[:6], "impl": oi[:6]}, key="c15-hour-sentinel")
+    # interpretation witness (not a check): never-measured node takes over on a 1 ns worsening
+    ctx.cov["unmeasured_takeover_interpretation"] = [i for _, i in sels[1:3]]
     stats = json.load(open(os.path.join(ctx.out, "c15.stats.json")))
     ctx.samples = (stats["samples"] or []) + read_lines(os.path.join(ctx.out, "c15.ops"))[:8]
     ctx.cov["input_distribution"] = stats["counters"]
